@@ -92,9 +92,26 @@ def compile_job(job):
             out = dict(base, id=f"{job['id']}/{int(u)}", unc=u)
             if job.get("compile", True):
                 try:
-                    qf.compile("internal", uncompute=u)
+                    from qlasskit import _verif
+                    events = []
+                    _verif.set_sink(lambda ev, f: events.append((ev, f)))
+                    try:
+                        qf.compile("internal", uncompute=u)
+                    finally:
+                        _verif.set_sink(None)
+                    out["ev"] = [{"k": "g", "v": f["anc"]} if ev == "qe.getfree" else {"k": "o", "v": f["order"]}
+                                 for ev, f in events if ev in ("qe.getfree", "ic.operands")]
+                    out["stmts"] = [[f["sym"], f["iret"], f["n_gates"]] for ev, f in events if ev == "ic.stmt"]
+                    out["hooks_seen"] = sorted({ev for ev, _ in events})
                 except _Timeout:
                     raise
+                except AttributeError as e:
+                    if "_verif" in str(e):
+                        raise
+                    out["status"] = "rejected"
+                    out["exc"] = f"compile: {type(e).__name__}: {str(e)[:200]}"
+                    outs.append(out)
+                    continue
                 except Exception as e:
                     out["status"] = "rejected"
                     out["exc"] = f"compile: {type(e).__name__}: {str(e)[:200]}"
